@@ -2,7 +2,7 @@ SPECIFICATION GSpec
 CONSTANTS
   Layouts <- GenSub
   Impl <- NoDevs
-  Depth = 5
+  Depth = 6
   GenModes <- QuickModes
   GenBy = FALSE
 CONSTRAINT Bound
